@@ -74,8 +74,10 @@ func NewToUnicodeFile(csr charcode.CodeSpaceRange, data map[charcode.Code]string
 					last[len(key)] = info[i-1].x
 
 					needsList := false
-					for j := start; j < i-1; j++ {
-						if data[info[j+1].code] != nextString(data[info[j].code], 1) {
+					for j := start + 1; j < i; j++ {
+						// compare with what Lookup will compute: the base
+						// value incremented by the offset in the range
+						if data[info[j].code] != nextString(data[info[start].code], j-start) {
 							needsList = true
 							break
 						}
